@@ -76,12 +76,27 @@ def sh(cmd, timeout=600, cwd=None, env=None, check=False):
 
 
 # ------------------------------------------------------------------ building drivers
+LIB_FLAGS = []      # when non-empty: the library sources are compiled separately with these flags (a client and a
+                    # library built with different settings - NDEBUG, optimisation - as a shipped libcstl.a is used)
+
+
 def build(ctx, name, driver, libsrcs, flags=None, wrap=(), extra_srcs=(), cc="gcc", defs=(), libs=()):
     """Compile harness/<driver> together with the given /repo/src files."""
     exe = ctx.work / name
+    libparts = [str(REPO / "src" / s) for s in libsrcs]
+    if LIB_FLAGS:
+        od = ctx.work / (name + "_lib")
+        od.mkdir(exist_ok=True)
+        libparts = []
+        for s_ in libsrcs:
+            o = od / (s_.replace(".c", ".o"))
+            rc, out = sh([cc] + list(LIB_FLAGS) + ["-D" + GUARD, "-I", str(REPO / "include"), "-c", str(REPO / "src" / s_), "-o", str(o)], timeout=300)
+            if rc != 0:
+                raise HarnessError(f"library build failed: {s_}\n{out[-6000:]}")
+            libparts.append(str(o))
     cmd = [cc] + list(flags or REL_FLAGS) + ["-D" + GUARD] + ["-D" + d for d in defs] + \
           ["-I", str(REPO / "include"), "-I", str(HARNESS), "-o", str(exe),
-           str(HARNESS / driver)] + [str(REPO / "src" / s) for s in libsrcs] + \
+           str(HARNESS / driver)] + libparts + \
           [str(HARNESS / s) for s in extra_srcs]
     if wrap:
         cmd += ["-DVERIF_WRAP_ALLOC", "-Wl," + ",".join("--wrap=" + w for w in wrap)]
